@@ -4,7 +4,7 @@ from __future__ import annotations
 import itertools
 from fractions import Fraction
 
-from harness import outcome
+from harness import outcome, trees
 from harness.runner import BoundedRun, Failure
 
 LEVEL = "exploration"
@@ -335,7 +335,7 @@ def poly_pool(tier):
     sums = [e for e in l1 if isinstance(e, p.Sum)][:14] + [p.Sum((x, 1)), p.Sum((x, y)), p.Sum((x, y, 1)), p.Sum((3, -3))]
     prods = [e for e in l1 if isinstance(e, p.Product)][:10]
     base = sums + prods + [x, y, 2]
-    for u, v in itertools.product(base[:: (1 if tier == "thorough" else 2)], base[:: (1 if tier == "thorough" else 3)]):
+    for u, v in itertools.product(base if tier == "thorough" else trees.thin(base, (len(base) + 1) // 2, seed=1), base if tier == "thorough" else trees.thin(base, (len(base) + 2) // 3, seed=2)):
         out += [p.Sum((u, v)), p.Product((u, v))]
     for u in base:
         for n in (0, 1, 2, 3):
